@@ -37,7 +37,8 @@ def make(recipe):
         model_key=recipe["model"], noise=recipe["noise"],
         tilt=recipe["tilt"], drift=recipe["drift"], lag=recipe["lag"],
         seed=recipe["seed"], baseline=recipe.get("baseline", 2e-10),
-        z0=recipe.get("z0", 3e-6), turn=recipe.get("turn", "linear"))
+        z0=recipe.get("z0", 3e-6), turn=recipe.get("turn", "linear"),
+        adhesion=recipe.get("adhesion", 0.))
 
 
 def cols(idnt):
@@ -227,6 +228,15 @@ def cases(tier, rng):
         out.append((r, [TIP], "smooth_height", {}))
         out.append((r, [TIP, "correct_split_approach_retract"],
                     "smooth_height", {}))
+    # sticky samples: the pull-off force exceeds the indentation force
+    for adh in (1.5, 2.0, 4.0):
+        for lag in (0, 8):
+            r = dict(kind="syn", model="hertz_para", noise=0., n_app=600,
+                     n_ret=500, tilt=0., drift=0., lag=lag, seed=2,
+                     adhesion=adh)
+            out.append((r, [TIP], "correct_split_approach_retract", {}))
+            out.append((r, [TIP, "correct_tip_offset", "correct_force_slope"],
+                        "correct_split_approach_retract", {}))
     # height smoothing on long curves whose turning point is smooth and lags
     # the segment flag: reversals of 1e-4 ... 1e-7 of the range
     for n, lag in ((3000, 12), (10000, 10), (10000, 30), (30000, 9)):
